@@ -989,13 +989,13 @@ fn gen_extra(rng: &mut Rng) -> (Vec<u8>, Vec<u8>) {
     let v = match rng.below(10) {
         0 => vec![],
         1 => b"\n".to_vec(),
-        2 => rng.word(b"ab \n", 1, 12),
+        2 => { let ab: &[u8] = if rng.chance(1, 3) { b"ab \n\r" } else { b"ab \n" }; rng.word(ab, 1, 12) },
         3 => {
             let mut v = rng.word(b"ab\n", 1, 12);
             v.push(b'\n');
             v
         }
-        4 => b"-----BEGIN PGP SIGNATURE-----\n\nabc\n=xy\n-----END PGP SIGNATURE-----".to_vec(),
+        4 => if rng.chance(1, 3) { b"-----BEGIN PGP SIGNATURE-----\r\n\r\nabc\r\n=xy\r\n-----END PGP SIGNATURE-----".to_vec() } else { b"-----BEGIN PGP SIGNATURE-----\n\nabc\n=xy\n-----END PGP SIGNATURE-----".to_vec() },
         5 => {
             let mut v = rng.word(b"ab", 1, 5);
             v.extend(b"\n\n");
